@@ -16,7 +16,7 @@ from mc import core, env, harness, refmodel, synth, treecheck
 ID = "C14"
 LEVEL = "exploration"
 
-VALUES = [("plain", "GOOD"), ("spaces", "a b  c"), ("equals", "x=y"), ("quote", 'say "hi" now'), ("eqquote", 'k="v"'), ("empty", ""), ("trailing-space", "v ")]
+VALUES = [("plain", "GOOD"), ("spaces", "a b  c"), ("equals", "x=y"), ("quote", 'say "hi" now'), ("eqquote", 'k="v"'), ("empty", ""), ("trailing-space", "v "), ("decomposed", "cafe\u0301 A\u030a"), ("compat", "\u212b \u2126 \u212a"), ("precomposed", "caf\u00e9 \u00c5"), ("cjk", "\u65e5\u672c")]
 FREE_KEYS = ["Odi_SiteDateTime", "Rad_PracticeResultCode", "Ach_TimeCheck", "Pds_MapDirection", "Lbi_Satellite", "Pdi_ProductFormat", "Odi_SceneId"]
 
 CORRUPTIONS = {
@@ -39,6 +39,9 @@ CORRUPTIONS = {
     "byte_order_mark": lambda l: "\ufeff" + l,
     "zero_width_space": lambda l: l[:3] + "\u200b" + l[3:],
     "trailing_nbsp": lambda l: l + "\u00a0",
+    # characters that Unicode normalisation would turn into ASCII
+    "kelvin_sign_section": lambda l: "\u212a" + l[1:],
+    "fullwidth_equals": lambda l: l.replace("=", "\uff1d", 1),
 }
 
 
@@ -290,7 +293,7 @@ def run(res, tier, seed):
         "well-formed: baseline; 7 free-text keys x 7 value shapes; CRLF / no final newline; all rotations, adjacent transpositions,"
         " reversal; all permutations within each section (<=5 lines); 3..10 product files (also reversed); 1..3 shape indices -"
         " each through open_alos2 and compared with the summary reference model. Malformed: all 4095 non-empty subsets of a 12-line"
-        " summary x 17 corruption kinds (7 of them with non-ASCII letters / underscore / quote / invisible characters incl. a byte order mark) + all kind pairs on 2-subsets through summary.open_summary; one kind per subset size and all"
+        " summary x 19 corruption kinds (9 of them with non-ASCII letters / underscore / quote / invisible characters incl. a byte order mark) + all kind pairs on 2-subsets through summary.open_summary; one kind per subset size and all"
         " single lines through open_alos2. File roles: every rotation / adjacent transposition / reversal of the typed names over the ProductFileNameNN numbers for 4, 5 and 7 files. Every corrupted line is rejected by an independent line recogniser (asserted)."
     )
     res.assumptions = ["values are printable ASCII without line separators", "the numbering base of reported lines is not fixed by the property (0 or 1 accepted, but one base per report)"]
